@@ -99,23 +99,24 @@ def model_out(v):
 def oracle_array(chk, case, out):
     """Property clauses on one direct call of the ejection routine."""
     M, N, E = case["M"], case["N"], case["E"]
+    from fractions import Fraction
     tot = math.fsum(M)
+    exact = sum(Fraction(m) for m in M)
     wf = all((m >= 0 and n >= 0 and ((m > 0) == (n > 0))) for m, n in zip(M, N))
     if not wf or not (E >= 0):
         return
     slack = 1e-9 * max(tot, 1e-300)
-    if E > tot + slack:
-        chk.count("E > total")
-        if out[0] != "Err":
-            chk.fail("over-ejection must raise ValueError", case, out)
+    if Fraction(E) > exact:
+        if E > tot + slack:
+            chk.count("E > total")
+            if out[0] != "Err":
+                chk.fail("over-ejection must raise ValueError", case, out)
+        else:
+            chk.count("E above total by rounding only (knife edge, no demand)")
         return
-    if E > tot - slack and E <= tot + slack:
-        chk.count("E ~ total (knife edge)")
     if out[0] == "Err":
-        if E <= tot - slack:
-            chk.fail("ejecting no more than exists must not raise", case, out)
-        elif E <= tot:
-            chk.fail("ejecting exactly the total must not raise", case, out, near_total=True)
+        chk.fail("ejecting no more than exists must not raise", case, out,
+                 near_total=bool(E > tot - slack))
         return
     chk.count("0 <= E <= total")
     M2, N2 = out[1], out[2]
@@ -160,11 +161,30 @@ def _cut_bin_empty(M, N, E):
     return False
 
 
+def _rounding_case(M, E):
+    """The listed finding: with the loop as written (heaviest first, whole bins
+    while M_j < budget) the float budget runs off the array although in exact
+    arithmetic E <= sum(M)."""
+    from fractions import Fraction
+    M = [C.unjson_float(x) for x in M]
+    E = C.unjson_float(E)
+    if not (sum(Fraction(m) for m in M) >= Fraction(E)):
+        return False
+    e = E
+    for j in range(len(M) - 1, -1, -1):
+        if M[j] < e:
+            e -= M[j]
+            continue
+        return False
+    return True
+
+
 def classify(f):
     cl = f["clause"]
     if cl == "no count or mass becomes NaN" and f.get("cut_bin_empty"):
         return "eject_nan_empty_cut_bin"
-    if cl == "ejecting exactly the total must not raise" and f.get("near_total"):
+    if cl == "ejecting no more than exists must not raise" and f.get("near_total") \
+            and _rounding_case(f["input"]["M"], f["input"]["E"]):
         return "eject_exact_total_rounding"
     if cl == "row: no count or mass becomes NaN" and f.get("cut_bin_empty"):
         return "eject_nan_empty_cut_bin"
@@ -259,7 +279,8 @@ def oracle_post(chk, case, out, rec):
 # --------------------------------------------------------------------- run
 CORPUS = [
     dict(M=[10.0, 0.0], N=[2.0, 0.0], E=0.0),            # empty top bin, nothing to eject
-    dict(M=[3.3, 7.7, 10.1], N=[1.0, 1.0, 1.0], E=21.1),  # exact total, rounding of the running budget
+    dict(M=[6.4, 1.2, 8.8, 1.9], N=[1.0, 1.0, 1.0, 1.0], E=18.3),  # E <= exact total, running budget rounds up
+    dict(M=[3.3, 7.7, 10.1], N=[1.0, 1.0, 1.0], E=21.1),  # E = float sum, 1 ulp above the exact total
     dict(M=[5.0, 0.0, 8.0, 12.0], N=[5.0, 0.0, 4.0, 3.0], E=10.0),
     dict(M=[1.0, 2.0, 3.0], N=[1.0, 1.0, 1.0], E=7.0),
     dict(M=[0.0, 0.0], N=[0.0, 0.0], E=0.0),
